@@ -17,7 +17,7 @@ var c09 = &progSpec{
 	id: "C09",
 	cfg: func(idx int) prog.Cfg {
 		return prog.Cfg{Items: 3, MaxDepth: 3, Ifs: true, Ranges: true, Vars: true, Blocks: idx%2 == 0, Includes: true, IncludeLoop: true, IncludeIfExists: true, ExecNoReturn: true,
-			MultiFile: idx%3 == 0, Try: idx%4 == 0, Fails: idx%4 == 0, Ctx: true, CondKinds: true}
+			MultiFile: idx%3 == 0, Try: idx%4 == 0, Fails: idx%4 == 0, Ctx: true, CondKinds: true, IssetSwallow: true}
 	},
 	nontriv: func(f map[string]bool, _ *prog.Program) bool {
 		return f["include"] || f["include-loop"] || f["includeIfExists-existing"] || f["includeIfExists-missing"] || f["exec-no-return"]
